@@ -116,9 +116,33 @@ def _extent_ok(ext, guard_terms, slack, offset_term) -> typing.Tuple[bool, str]:
     return False, f"stored extent `{cast.show(ext)}` is not covered by the checked length `{'+'.join(cast.show(t) for t in rest) or '0'}`"
 
 
+def copy_helpers(fns: typing.Dict[str, dict]) -> typing.Set[str]:
+    """private parts of the raw bit copy: functions that are called from nunavutCopyBits (or from another such part) and from nowhere
+    else.  They share its contract - the extents are the caller's obligation - and its read-modify-write obligations."""
+    callers: typing.Dict[str, typing.Set[str]] = {}
+    for name, fn in fns.items():
+        for n in cast.walk(cast.body_of(fn) or {}):
+            if n.get("kind") == "CallExpr":
+                c = cast.callee_name(n)
+                if c in fns and c != name:
+                    callers.setdefault(c, set()).add(name)
+    out: typing.Set[str] = set()
+    changed = True
+    while changed:
+        changed = False
+        for g, cs in callers.items():
+            if g not in out and g != COPY and g not in RAW and cs and cs <= ({COPY} | out):
+                out.add(g)
+                changed = True
+    return out
+
+
 def rule_set_bound(fns: typing.Dict[str, dict], errcode: int) -> typing.List[dict]:
     R = "R-C14-SET-BOUND"
     out = []
+    RAW = dict(globals()["RAW"])
+    for h in copy_helpers(fns):
+        RAW[h] = f"part of {COPY} (called from nowhere else)"
     checked: typing.Set[str] = set()
     wrappers = []
     for name, fn in fns.items():
@@ -185,7 +209,7 @@ def rule_get(fns: typing.Dict[str, dict]) -> typing.List[dict]:
     for name, fn in fns.items():
         v = View(name, fn)
         src = {p for p, ty in v.params.items() if _const_ptr(ty)}
-        if not src or name in (COPY,):
+        if not src or name in (COPY,) or name in copy_helpers(fns):
             continue
         tainted = _taint(fn, src)
         reads, passes = [], []
@@ -306,6 +330,17 @@ def rule_tail(fns) -> typing.List[dict]:
     size, off, ln = (("ref", p) for p in ps)
     rets = [(s, t) for s, t in v.terms() if t[0] == "un" and t[1] == "return"]
     ok, detail = False, "no return"
+    # `if (c) { return a; } ... return b;` at the top level of the body is the conditional `c ? a : b`
+    early = [s for s in v.stmts if not s.guards and s.node.get("kind") == "IfStmt" and then_returns(s.node) is not None]
+    final = [(s, t) for s, t in rets if not s.guards]
+    if early and len(final) == 1 and len(rets) == len(early) + 1:
+        s_f, t_f = final[0]
+        r = cast.substitute(t_f[2], v.env(s_f.index))
+        for s in reversed(early):
+            env = v.env(s.index)
+            r = ("cond", cast.substitute(cast.term(s.node["inner"][0]), env), cast.substitute(then_returns(s.node), env), r)
+        ok, detail = _tail_shape(norm(r), size, off, ln)
+        return [res(R, SAT, f"{SAT}: min(length, size*8 - min(size*8, offset))", ok, detail)]
     for s, t in rets:
         r = norm(cast.substitute(t[2], v.env(s.index)))     # (a < b) ? b - a : 0  is  b - min(b, a)
         ok, detail = _tail_shape(r, size, off, ln)
@@ -358,11 +393,21 @@ def rule_rmw(fns) -> typing.List[dict]:
     if fn is None:
         raise AnalysisError(f"anchor missing: {COPY}")
     v = View(COPY, fn)
-    return rmw_core(R, COPY, v, {p for p, ty in v.params.items() if _nonconst_ptr(ty)}, {p for p, ty in v.params.items() if _const_ptr(ty)},
-                    lambda t: t == ("ref", "length_bits") or (t[0] == "ref" and "length" in t[1] and t[1] in v.params), _taint)
+    helpers = sorted(copy_helpers(fns))
+    out = rmw_core(R, COPY, v, {p for p, ty in v.params.items() if _nonconst_ptr(ty)}, {p for p, ty in v.params.items() if _const_ptr(ty)},
+                   lambda t: t == ("ref", "length_bits") or (t[0] == "ref" and "length" in t[1] and t[1] in v.params), _taint,
+                   min_stores=0 if helpers else 2)
+    for h in helpers:
+        hv = View(h, fns[h])
+        out += rmw_core(R, h, hv, {p for p, ty in hv.params.items() if _nonconst_ptr(ty)}, {p for p, ty in hv.params.items() if _const_ptr(ty)},
+                        lambda t, hv=hv: t[0] == "ref" and "length" in t[1] and t[1] in hv.params, _taint, min_stores=0, part=True)
+    if helpers:
+        n = len([r for r in out if "partial-byte store `" in r["construct"]])
+        out.append(res(R, COPY, f"{COPY}: partial-byte stores found", n >= 2, f"only {n} store(s) into the destination recognised in {[COPY] + helpers}"))
+    return out
 
 
-def rmw_core(R, name, v, dst_seed, src_seed, is_length, taint_fn, is_dst_lhs=None) -> typing.List[dict]:
+def rmw_core(R, name, v, dst_seed, src_seed, is_length, taint_fn, is_dst_lhs=None, min_stores=2, part=False) -> typing.List[dict]:
     out = []
     dst = taint_fn(v.fn, dst_seed) if taint_fn else dst_seed
     masks = {x[2][1] for _s, t in v.terms() for x in cast.subterms(t) if x[0] == "un" and x[1] == "~" and x[2][0] == "ref" and x[2][1] in v.defs}
@@ -393,7 +438,7 @@ def rmw_core(R, name, v, dst_seed, src_seed, is_length, taint_fn, is_dst_lhs=Non
             if not any(a[0] == "ref" and a[1] in masks for a in ands):
                 ok, detail = False, f"new bits `{cast.show(o)}` are merged without `& mask`: bits outside the copied range are disturbed"
         out.append(res(R, name, f"{name}: partial-byte store `{shown}` is a masked read-modify-write", ok, detail))
-    if n_store < 2:
+    if n_store < min_stores:
         out.append(res(R, name, f"{name}: partial-byte stores found", False, f"only {n_store} store(s) into the destination recognised"))
     # whole-byte move: floor(length/8)
     for s, t in v.terms():
@@ -409,6 +454,8 @@ def rmw_core(R, name, v, dst_seed, src_seed, is_length, taint_fn, is_dst_lhs=Non
         if any(g[0] == "while" for g in s.guards) and t[0] == "bin" and t[1] == "+=" and t[2][0] == "ref":
             incs[t[2][1]] = t[3]
     loops = [s for s in v.stmts if s.node.get("kind") == "WhileStmt"]
+    if part and not loops:
+        return out
     ok = len(incs) >= 2 and len(set(incs.values())) == 1 and bool(loops)
     detail = f"offsets advanced in the loop: {{{', '.join(k + '+=' + cast.show(x) for k, x in incs.items())}}}"
     if ok:
